@@ -18,6 +18,7 @@ writes those fields;
 (d) action arms: the limited+slip arm calls clear_rrs then set_tc(true); the limited+drop arm clears send_response; the
 send arm increments the count under count < limit; refill subtracts from the count with saturation and moves
 last_refill by the whole elapsed seconds (now - fractional part).
+(r) the refill (clock read) dominates every comparison of the bucket count with the limit.
 Not decided: step-by-step agreement with a reference bucket over time histories (no clock in a static analysis).
 """
 ASSUMPTIONS = ['Instant/Duration from std are trusted', 'every CFG path is assumed feasible']
@@ -34,7 +35,31 @@ def time_derived(fn, o):
     return any(n in TIME_SRC for n in sl.call_names())
 
 
+def check_refill_first(R, F):
+    """The bucket is refilled (the clock is read and count lowered) before its count is compared with the limit, on every
+    path: every branch on `count` vs `limit` in process_response is dominated by the Instant::duration_since call.  A
+    refill that only happens once the bucket is exhausted lets tokens left over from before an idle period be spent on
+    top of the refilled capacity."""
+    pr = F.fn('server::rrl::Rrl::process_response')
+    clock = [b for b, t in pr.calls() if callee_name(t).endswith('Instant::duration_since')]
+    tests = []
+    for b, blk in enumerate(pr.blocks):
+        t = blk['term']
+        if blk['cleanup'] or t['k'] != 'switch':
+            continue
+        txt = paths.show_operand(pr, t['op'])
+        if re.match(r'^(Ge|Lt|Gt|Le)\(', txt) and '.count' in txt and ('limit' in txt or re.search(r'\.1\)?$|_\d+\.1', txt) or 'rate_and_limit_for_category' in txt):
+            tests.append((b, txt))
+    if not clock or not tests:
+        R.bad('refill-first', 'server::rrl::Rrl::process_response|clock-then-limit', pr.where(), 'cannot find the clock read (%d) and the count/limit test (%d)' % (len(clock), len(tests)))
+        return
+    late = [(b, txt) for b, txt in tests if not any(pr.dominates(c, b) for c in clock)]
+    R.require(not late, 'refill-first', 'server::rrl::Rrl::process_response|clock-then-limit', pr.where(tests[0][0]), 'every count/limit test comes after the refill (%d tests)' % len(tests),
+              'the count is compared with the limit before the bucket was refilled (%s): leftover tokens and the refilled capacity add up' % [t for b, t in late])
+
+
 def check(R, F):
+    check_refill_first(R, F)
     pr = F.fn(PR)
     # ---- (a)
     n = 0
